@@ -689,7 +689,7 @@ func (u *Unit) enterLoop(fr *Frame, li *loopInfo, st *State) {
 	if li.spec != nil {
 		env := u.envFor(fr, st, u.entryFor(fr), nil)
 		for _, inv := range li.spec.Invariants {
-			u.assume(st, u.evalBool(env, inv.Expr))
+			u.assume(st, u.evalBoolF(env, st, inv.Expr))
 		}
 		if li.spec.Decreases != nil {
 			v := u.evalTerm(env, li.spec.Decreases.Expr)
@@ -726,7 +726,7 @@ func (u *Unit) checkInvariant(fr *Frame, li *loopInfo, st *State, phase string) 
 		if inv.Label != "" {
 			name = fmt.Sprintf("%sinv#%d.%s/%s", prefix, li.ordinal, inv.Label, phase)
 		}
-		u.addOblNamed(st, "inv", name, "loop invariant "+phase+": "+inv.Src, pos, u.evalBool(env, inv.Expr))
+		u.addOblNamed(st, "inv", name, "loop invariant "+phase+": "+inv.Src, pos, u.evalBoolF(env, st, inv.Expr))
 	}
 	if strings.HasPrefix(phase, "preserved") && li.spec.Decreases != nil && li.variant0 != nil {
 		v := u.evalTerm(env, li.spec.Decreases.Expr)
